@@ -291,6 +291,15 @@ class SimBroker(AsyncBroker):
                     if dl.id not in w.entered:
                         w.dropped.add(dl.id)
                 raise SimFault("connection to the broker lost")
+            le = w.config.get("listen_end_after")
+            ne = w.extra.get("listen_ended", 0)
+            if le is not None and self.worker is not None and ne < len(le) and not w.extra.get("probe_started") \
+                    and len(w.taken.get((self.worker, self.gen), [])) >= le[ne]:
+                # the broker ends the subscription in an orderly way (the stream is exhausted): no error, nothing is lost
+                w.extra["listen_ended"] = ne + 1
+                w.fired("listen_stream_end")
+                w.rec("listen_end", None, w=self.worker)
+                return
             d = srv.queue.popleft()
             d.worker = self.worker
             d.gen = self.gen
